@@ -70,6 +70,19 @@ type strukt struct {
 	Name string
 }
 
+// fields promoted from an embedded pointer (which may be nil): unexported, named like schema keys
+type base struct {
+	a    string
+	name string
+}
+type embedded struct {
+	*base
+	B string
+}
+type embeddedDeep struct {
+	*embedded
+}
+
 // dynInputs: a grammar over Go dynamic types at a struct position.
 func dynInputs(r *eng.Rng) []dynIn {
 	var ins []dynIn
@@ -177,6 +190,12 @@ func dynInputs(r *eng.Rng) []dynIn {
 	add(&innerNilMap, "(GPtr (Some (GPtr None)))")
 	pin := &innerNil
 	add(&pin, "(GPtr (Some (GPtr (Some (GPtr None)))))")
+	// structs whose fields named like the schema keys are promoted from an embedded pointer: nil, not nil, nil two levels down
+	add(embedded{B: "b"}, `(GStruct [("base", false, false); ("B", true, true); ("a", false, false); ("name", false, false)])`)
+	add(&embedded{B: "b"}, `(GPtr (Some (GStruct [("base", false, false); ("B", true, true); ("a", false, false); ("name", false, false)])))`)
+	add(embedded{base: &base{a: "x", name: "y"}, B: "b"}, `(GStruct [("base", false, true); ("B", true, true); ("a", false, true); ("name", false, true)])`)
+	add(embeddedDeep{}, `(GStruct [("embedded", false, false); ("B", true, false); ("a", false, false); ("name", false, false)])`)
+	add(embeddedDeep{&embedded{B: "b"}}, `(GStruct [("embedded", false, true); ("B", true, true); ("a", false, false); ("name", false, false)])`)
 	add(map[string]any{}, "(GMap "+mt(false, true, true, "EIface", true)+" false [])")
 	add(mStr{}, "(GMap "+mt(true, true, true, "EString", true)+" false [])")
 	// other kinds
